@@ -185,6 +185,55 @@ fn err_event(api: &str, p: usize, limit: usize, e: &Error) -> Value {
            "toomany": matches!(e, Error::HttpParseTooManyHeaders), "err": format!("{:?}", e)})
 }
 
+/// Growing windows offered to ONE receiver (the caller re-presents unconsumed bytes): stops at the first
+/// response or error. Events are the same `offer` events (the guard is per offer).
+fn offer_sequence(t: &mut Tracer, g: &GenHead, ps: &[usize], api: &str) {
+    let exp = expected_map(&g.fields);
+    if api == "flow" {
+        let mut f = flow_recv_response("GET");
+        for &p in ps {
+            let input = &g.bytes[..p.min(g.bytes.len())];
+            match guarded(|| f.try_response(input)) {
+                None => {
+                    t.ev(json!({"ev":"panic","during":"try_response"}));
+                    return;
+                }
+                Some(Err(e)) => {
+                    t.ev(err_event(api, p, 128, &e));
+                    return;
+                }
+                Some(Ok((c, None))) => t.ev(json!({"ev":"offer","api":api,"p":p,"limit":128,"res":"none","c":c,"head_ok":true,"toomany":false,"seq":true})),
+                Some(Ok((c, Some(r)))) => {
+                    let ok = r.status().as_u16() == g.status && version_is_10(r.version()) == g.http10 && actual_map(r.headers()) == exp;
+                    t.ev(json!({"ev":"offer","api":api,"p":p,"limit":128,"res":"some","c":c,"head_ok":ok,"toomany":false,"seq":true}));
+                    return;
+                }
+            }
+        }
+    } else {
+        let mut c0 = call_recv_response("GET");
+        for &p in ps {
+            let input = &g.bytes[..p.min(g.bytes.len())];
+            match guarded(|| c0.try_response(input)) {
+                None => {
+                    t.ev(json!({"ev":"panic","during":"Call::try_response"}));
+                    return;
+                }
+                Some(Err(e)) => {
+                    t.ev(err_event(api, p, 128, &e));
+                    return;
+                }
+                Some(Ok(None)) => t.ev(json!({"ev":"offer","api":api,"p":p,"limit":128,"res":"none","c":0,"head_ok":true,"toomany":false,"seq":true})),
+                Some(Ok(Some((c, r)))) => {
+                    let ok = r.status().as_u16() == g.status && version_is_10(r.version()) == g.http10 && actual_map(r.headers()) == exp;
+                    t.ev(json!({"ev":"offer","api":api,"p":p,"limit":128,"res":"some","c":c,"head_ok":ok,"toomany":false,"seq":true}));
+                    return;
+                }
+            }
+        }
+    }
+}
+
 fn offer_flow(t: &mut Tracer, g: &GenHead, p: usize, api: &str) {
     let input = &g.bytes[..p];
     if api == "flow" {
@@ -266,6 +315,22 @@ pub fn c05(o: &Opts, t: &mut Tracer) -> Value {
         if nfields > 128 {
             t.class("offer:over-limit");
         }
+        // the same receiver sees growing windows: two-step and multi-step sequences ending at or beyond |H|
+        let h = g.h;
+        let seqs: Vec<Vec<usize>> = vec![
+            vec![h - 1, h], vec![h - 2, h + 3], vec![h - 3, h - 1, h], vec![h - 4, h], vec![1, h], vec![0, 7, 8, h],
+            vec![g.sl - 1, g.sl, g.sl + 1, h], vec![h / 2, h - 1, h + 2],
+        ];
+        for (k, sq) in seqs.iter().enumerate() {
+            offer_sequence(t, &g, sq, ["flow", "call"][(i + k) % 2]);
+            offers += sq.len() as u64;
+        }
+        if h < 400 {
+            let all: Vec<usize> = (0..=h + 1).collect();
+            offer_sequence(t, &g, &all, api);
+            offers += all.len() as u64;
+        }
+        t.class("offer:sequence");
     }
     json!({"offers": offers})
 }
@@ -414,7 +479,8 @@ pub fn c06(o: &Opts, t: &mut Tracer) -> Value {
                             "chunked" => "chunked",
                             "mixedcase" => ["Chunked", "CHUNKED", "chunKED", "cHunked"][pick],
                             "list" => ["gzip, chunked", "gzip,chunked", "deflate , gzip ,chunked", "identity, Chunked"][pick],
-                            "other" => ["gzip", "identity", "deflate, gzip", "x-chunked"][pick],
+                            "other" => [["gzip", "identity", "deflate, gzip", "x-chunked"], ["chunk", "chunked-v2", "gzip,", "chunkedx"],
+                                        [", gzip", "c", "chunke", "chunked2, gzip"]][(status as usize / 7 + mi) % 3][pick],
                             _ => "",
                         };
                         let mut head = format!("HTTP/1.{} {} R\r\n", if http10 { 0 } else { 1 }, status);
